@@ -70,11 +70,11 @@ def flags_of(opts, rules=(), rule_style="opt"):
 
 def design_and_generate(w, fam, coverage=True, maxrules=2):
     """Model-check the family, return (tlc result, scenarios)."""
-    r = w.tlc_ok("MCRecv", scen_cfg(fam, maxrules=maxrules), coverage=coverage, label="RecvSide-" + fam)
+    r = w.tlc_ok("MCRecv", scen_cfg(fam, maxrules=maxrules), coverage=coverage, label="RecvSide-" + fam, timeout=5400)
     cov = require_coverage(r, ACTIONS) if coverage else {}
     out = w.path("recv-scen-%s.raw" % fam)
     g = w.tlc_ok("MCRecv", scen_cfg(fam, spec="GenSpec", invariants=False, emit=True, maxrules=maxrules), env={"VERIF_OUT": out},
-                 workers=1, label="RecvScenGen-" + fam)
+                 workers=1, label="RecvScenGen-" + fam, timeout=5400)
     scen = read_ndjson(out)
     if len(scen) != g["distinct"] or len(scen) < 10:
         raise Broken("scenario generation (%s): %d lines for %d initial states" % (fam, len(scen), g["distinct"]))
